@@ -11,6 +11,10 @@ What is proved for **all** inputs:
   `markInactive_dq`, and the agreement step `markInactive_agree`;
 * accusation resolution is a function of public data only: `verdict5_public`, `verdict9_public`,
   `resolution_agree`, and where the unchanged code broke that: `pointsOf_unfixed_private`;
+* Go map iteration order (`accusedMembersKeys`, `privateKeys`): `markDQ_fold_iff`,
+  `markDQ_fold_order_independent` (disqualifying the same members in any order gives the same DQ
+  set), `pointsOf_discardPoints` (repaired code: a conviction does not change the evidence later
+  accusations are judged on, so the verdicts do not depend on the order either);
 * the monitor means what it says: `holds_sound`, `holds_complete`.
 
 What is proved on concrete runs by kernel evaluation of the *whole* model (`decide +kernel`):
@@ -349,6 +353,149 @@ theorem views_agree_partial (a b : St) (actA actB : List Nat)
     simp only [List.mem_append, List.mem_singleton, h.2.2 k]
   · exact h
 
+/-! ## (c') Go map order: the processing order of accusations / reveals cannot change the DQ set -/
+
+theorem lookup_erase_self {α} (k : Nat) (l : List (Nat × α)) : lookup k (erase k l) = none := by
+  induction l with
+  | nil => rfl
+  | cons p rest ih =>
+    obtain ⟨a, b⟩ := p
+    by_cases h : a = k
+    · simp [erase, List.filter_cons, h]; simpa [erase] using ih
+    · have : lookup k (erase k rest) = none := ih
+      simp [erase, List.filter_cons, h, lookup] ; simpa [erase] using ih
+
+theorem lookup_erase_ne {α} (k j : Nat) (h : k ≠ j) (l : List (Nat × α)) :
+    lookup k (erase j l) = lookup k l := by
+  induction l with
+  | nil => rfl
+  | cons p rest ih =>
+    obtain ⟨a, b⟩ := p
+    by_cases ha : a = j
+    · have hak : ¬ a = k := fun e => h (e ▸ ha)
+      simp [erase, List.filter_cons, ha, lookup] at ih ⊢
+      subst ha; simp [hak]; exact ih
+    · simp only [erase, List.filter_cons, lookup] at ih ⊢
+      simp only [ne_eq, ha, not_false_eq_true, decide_true, ↓reduceIte, lookup]
+      split
+      · rfl
+      · exact ih
+
+theorem lookup_put_self {α} (k : Nat) (v : α) (l : List (Nat × α)) : lookup k (put k v l) = some v := by
+  induction l with
+  | nil => simp [put, lookup]
+  | cons p rest ih =>
+    obtain ⟨a, b⟩ := p
+    by_cases h : a = k
+    · simp [put, h, lookup]
+    · simp [put, h, lookup, ih]
+
+theorem lookup_put_ne {α} (k j : Nat) (h : k ≠ j) (v : α) (l : List (Nat × α)) :
+    lookup k (put j v l) = lookup k l := by
+  induction l with
+  | nil => simp [put, lookup]; exact fun e => absurd e.symm h
+  | cons p rest ih =>
+    obtain ⟨a, b⟩ := p
+    by_cases ha : a = j
+    · have : ¬ j = k := fun e => h e.symm
+      simp [put, ha, lookup, this]
+    · simp only [put, ha, ↓reduceIte, lookup]
+      split
+      · rfl
+      · exact ih
+
+/-- REPAIRED code: convicting a member does not change the points any later accusation against
+    any member is judged on — the phase 9 verdicts do not depend on the processing order. -/
+theorem pointsOf_discardPoints (st : St) (hf : st.fixed = true) (j k : Nat) :
+    pointsOf (discardPoints st j) k = pointsOf st k := by
+  unfold discardPoints
+  simp only [hf, Bool.not_true, Bool.false_eq_true, ↓reduceIte]
+  cases hj : lookup j st.validPts with
+  | none => rfl
+  | some ps =>
+    simp only
+    by_cases hkj : k = j
+    · subst hkj
+      simp [pointsOf, lookup_erase_self, lookup_put_self, hj, hf]
+    · simp [pointsOf, lookup_erase_ne k j hkj, lookup_put_ne k j hkj, hf]
+
+/-- …while in the UNCHANGED code (no evidence kept) a member whose own check failed judges on `[]`,
+    see `pointsOf_unfixed_private`. -/
+theorem pointsOf_markDQ (st : St) (j k : Nat) : pointsOf (markDQ st j) k = pointsOf st k := by
+  unfold markDQ; split <;> rfl
+
+private theorem dqFold (l : List Nat) (st : St) :
+    (l.foldl markDQ st).ia = st.ia ∧ (l.foldl markDQ st).n = st.n ∧
+    (∀ k, k ∈ (l.foldl markDQ st).dq ↔ k ∈ st.dq ∨ (k ∈ l ∧ isOperating st k = true)) := by
+  induction l generalizing st with
+  | nil => simp
+  | cons j rest ih =>
+    simp only [List.foldl_cons]
+    obtain ⟨h1, h2, h3⟩ := ih (markDQ st j)
+    by_cases hop : isOperating st j = true
+    · have hs : markDQ st j = { st with dq := st.dq ++ [j] } := by unfold markDQ; rw [if_pos hop]
+      have hia : (markDQ st j).ia = st.ia := by rw [hs]
+      have hn : (markDQ st j).n = st.n := by rw [hs]
+      have hdq : (markDQ st j).dq = st.dq ++ [j] := by rw [hs]
+      have hopk : ∀ k, k ≠ j → isOperating (markDQ st j) k = isOperating st k := by
+        intro k hk
+        rw [hs]
+        simp only [isOperating, List.contains_append]
+        have : ([j] : List Nat).contains k = false := by simp [hk]
+        simp only [this, Bool.or_false]
+      have hopj : isOperating (markDQ st j) j = false := by
+        rw [hs]; simp [isOperating]
+      refine ⟨h1.trans hia, h2.trans hn, ?_⟩
+      intro k
+      rw [h3 k, hdq]
+      constructor
+      · rintro (h | ⟨hk, ho⟩)
+        · simp only [List.mem_append, List.mem_singleton] at h
+          rcases h with h | rfl
+          · exact Or.inl h
+          · exact Or.inr ⟨by simp, hop⟩
+        · by_cases hkj : k = j
+          · subst hkj; rw [hopj] at ho; exact absurd ho (by simp)
+          · rw [hopk k hkj] at ho; exact Or.inr ⟨List.mem_cons_of_mem _ hk, ho⟩
+      · rintro (h | ⟨hk, ho⟩)
+        · exact Or.inl (by simp [h])
+        · by_cases hkj : k = j
+          · subst hkj; exact Or.inl (by simp)
+          · simp only [List.mem_cons] at hk
+            rcases hk with rfl | hk
+            · exact absurd rfl hkj
+            · exact Or.inr ⟨hk, by rw [hopk k hkj]; exact ho⟩
+    · have hs : markDQ st j = st := by unfold markDQ; rw [if_neg hop]
+      rw [hs] at h1 h2 h3 ⊢
+      refine ⟨h1, h2, ?_⟩
+      intro k
+      rw [h3 k]
+      constructor
+      · rintro (h | ⟨hk, ho⟩)
+        · exact Or.inl h
+        · exact Or.inr ⟨List.mem_cons_of_mem _ hk, ho⟩
+      · rintro (h | ⟨hk, ho⟩)
+        · exact Or.inl h
+        · simp only [List.mem_cons] at hk
+          rcases hk with rfl | hk
+          · exact absurd ho hop
+          · exact Or.inr ⟨hk, ho⟩
+
+/-- The DQ set after disqualifying a list of members: exactly the old ones plus the listed members
+    that were operating. -/
+theorem markDQ_fold_iff (l : List Nat) (st : St) (k : Nat) :
+    k ∈ (l.foldl markDQ st).dq ↔ k ∈ st.dq ∨ (k ∈ l ∧ isOperating st k = true) :=
+  (dqFold l st).2.2 k
+
+/-- Go map order: disqualifying the same members in ANY order (any permutation, with or without
+    repetitions) yields the same DQ set — the order in which the code ranges over the
+    `accusedMembersKeys` / `privateKeys` maps cannot change the set of disqualified members, given
+    that the verdicts themselves do not depend on the order (`pointsOf_discardPoints`,
+    `verdict5_public`/`verdict9_public`: they are functions of the evidence only). -/
+theorem markDQ_fold_order_independent (l l' : List Nat) (h : ∀ k, k ∈ l ↔ k ∈ l') (st : St) (k : Nat) :
+    k ∈ (l.foldl markDQ st).dq ↔ k ∈ (l'.foldl markDQ st).dq := by
+  rw [markDQ_fold_iff, markDQ_fold_iff, h k]
+
 /-! ## the monitor -/
 
 /-- what `holds` means: any two finished honest members have the same IA set, the same DQ set and
@@ -475,6 +622,32 @@ theorem abort_marks_honest_inactive_unfixed :
 
 set_option maxRecDepth 100000 in
 theorem abort_fixed_agrees : modelHolds (fAbort true) = true := by decide +kernel
+
+/-- corrupt 2 sends a wrong share to member 5 only and stays silent in phase 4 -/
+def fOrd (fix : Bool) : Cfg :=
+  { n := 5, t := 2, seed := 946276, ord := 644, q := Gen.C01.order, fixed := true, fixOrder := fix,
+    adv := [(2, 3, [.mods [⟨"bad", [5]⟩]]), (2, 4, [.silent])] }
+
+/-- corrupt 3 omits the share for member 4, corrupt 4 sends a wrong number of commitments -/
+def f4 (fix : Bool) : Cfg :=
+  { n := 7, t := 3, seed := 280685, ord := 743800, q := Gen.C01.order, fixed := true, fix4 := fix,
+    adv := [(3, 3, [.mods [⟨"rs", [4]⟩], .silent]), (4, 3, [.mods [⟨"cm", []⟩, ⟨"cm", []⟩]])] }
+
+set_option maxRecDepth 100000 in
+/-- unchanged tree: member 2 ends DISQUALIFIED for its accuser 5 but INACTIVE for member 1 -/
+theorem inactive_vs_disqualified_unfixed :
+    2 ∈ dqOf (fOrd false) 5 ∧ 2 ∈ iaOf (fOrd false) 1 ∧ modelHolds (fOrd false) = false := by
+  decide +kernel
+
+set_option maxRecDepth 100000 in
+theorem inactive_vs_disqualified_fixed_agrees : modelHolds (fOrd true) = true := by decide +kernel
+
+set_option maxRecDepth 100000 in
+/-- unchanged tree: whether 3's shares message was complete depended on the delivery order -/
+theorem phase4_order_dependence_unfixed : modelHolds (f4 false) = false := by decide +kernel
+
+set_option maxRecDepth 100000 in
+theorem phase4_order_fixed_agrees : modelHolds (f4 true) = true := by decide +kernel
 
 /-- T1 tie: the states of the real state chain that are active for a positive number of blocks
     (i.e. receive messages) are exactly the model's sending phases. -/
